@@ -112,8 +112,95 @@ GRAM_IMPORTS = ["Gen.ProxFuncs", "Gen.PenSeparable", "Gen.KernGram", "Skel.Ander
                 "Skel.CorrSolvers"]
 
 
+# ------------------------------------------------------------------ GroupBCD against the dyadic mock kernels
+import harness_acd as _ha
+
+
+class _GDatafit(_ha.MockDatafit):
+    def value(self, y, w, Xw):                      # receives the full w (intercept entry included): only the p features count
+        return sum((Xw[j % len(Xw)] - self.M.T[j]) ** 2 * self.M.a[j] / 2 for j in range(self.M.p))
+
+
+class _GPenalty(_ha.MockPenalty):
+    @property
+    def grp_ptr(self): return np.arange(self.M.p + 1)
+    @property
+    def grp_indices(self): return np.arange(self.M.p)
+    def generalized_support(self, w): return np.asarray(w)[:self.M.p] != 0
+
+
+def run_real_bcd(M, cfg, w_init, Xw_init, sparse_X, n):
+    import skglm.solvers.group_bcd as gb
+    names = ("_bcd_epoch", "_bcd_epoch_sparse", "_construct_grad", "_construct_grad_sparse", "dist_fix_point_bcd",
+             "AndersonAcceleration", "np")
+    saved = {k: getattr(gb, k) for k in names}
+
+    def ep_d(X, y, w, Xw, lc, datafit, penalty, ws): M.epoch(w, Xw, ws)
+    def ep_s(d, ip, ix, y, w, Xw, lc, datafit, penalty, ws): M.epoch(w, Xw, ws)
+    def cg(X, y, w, Xw, datafit, ws): return np.array([M.g_at(Xw, j) for j in ws])
+    def cg_s(d, ip, ix, y, w, Xw, datafit, ws): return np.array([M.g_at(Xw, j) for j in ws])
+    def fixp(w, grad, lip_ws, datafit, penalty, ws): return np.array([abs(grad[idx]) * lip_ws[idx] for idx, j in enumerate(ws)])
+    try:
+        gb._bcd_epoch, gb._bcd_epoch_sparse, gb._construct_grad, gb._construct_grad_sparse = ep_d, ep_s, cg, cg_s
+        gb.dist_fix_point_bcd, gb.AndersonAcceleration, gb.np = fixp, _ha.MockAccel, _ha.NpProxy()
+        p = M.p
+        X = np.zeros((n, p))
+        if sparse_X:
+            X = sparse.csc_matrix(X)
+        solver = gb.GroupBCD(max_iter=cfg["max_iter"], max_epochs=cfg["max_epochs"], p0=cfg["p0"], tol=cfg["tol"],
+                             ws_strategy="fixpoint" if cfg["fixpoint"] else "subdiff", fit_intercept=cfg["fit_intercept"])
+        w0 = None if w_init is None else np.array(w_init, dtype=float)
+        x0 = None if Xw_init is None else np.array(Xw_init, dtype=float)
+        M.counts = dict(epochs=0, accepts=0)
+        try:
+            w, obj, stop = solver._solve(X, np.zeros(n), _GDatafit(M), _GPenalty(M), w0, x0)
+        except (ValueError, IndexError, TypeError, AttributeError, ZeroDivisionError) as e:
+            return dict(err=True, exc=repr(e))
+        return dict(err=False, w=list(map(float, w)), Xw=None if x0 is None else list(map(float, x0)), obj=list(map(float, obj)),
+                    stop=float(stop), iters=len(obj), epochs=M.counts["epochs"])
+    finally:
+        for k, v in saved.items():
+            setattr(gb, k, v)
+
+
+def make_bcd_cases(rng, n_cases):
+    cases, dist = [], dict(err=0, iters={}, epochs_total=0, sparse=0, warm=0, fixpoint=0, intercept=0, n_ne_p=0)
+    for k in range(n_cases):
+        M, cfg, w_init, Xw_init, sp, n = _ha.gen_case(rng)
+        if rng.random() < 0.5:
+            cfg["max_epochs"] = rng.choice([7, 8, 11, 12, 21])          # reach the extrapolation calls of the persistent accelerator
+        if w_init is not None and rng.random() < 0.1:
+            Xw_init = None                                             # w_init without Xw_init: the source dereferences None
+        obs = run_real_bcd(M, cfg, w_init, Xw_init, sp, n)
+        cfgc = ("{| max_iter := %d; max_epochs := %d; p0 := %s; tol := %s; fixpoint := %s; fit_intercept := %s; "
+                "n_features := %d; n_samples := %d |}" % (cfg["max_iter"], cfg["max_epochs"], z(cfg["p0"]), q(cfg["tol"]),
+                                                          b(cfg["fixpoint"]), b(cfg["fit_intercept"]), M.p, n))
+        wi = "None" if w_init is None else f"(Some {vq(w_init)})"
+        xi = "None" if Xw_init is None else f"(Some {vq(Xw_init)})"
+        expr = f"bsolve {cfgc} (mock_kernels_g {M.coq()} {M.p}) {wi} {xi}"
+        if obs["err"]:
+            o = "{| ob_err := true; ob_w := []; ob_Xw := []; ob_obj := []; ob_stop := XBad; ob_iters := 0; ob_epochs := 0; ob_accepts := 0 |}"
+            has_buf = False
+            dist["err"] += 1
+        else:
+            has_buf = obs["Xw"] is not None
+            o = ("{| ob_err := false; ob_w := %s; ob_Xw := %s; ob_obj := %s; ob_stop := %s; ob_iters := %d; ob_epochs := %d; "
+                 "ob_accepts := 0 |}" % (vq(obs["w"]), vq(obs["Xw"]) if has_buf else "[]", lst([xq(x) for x in obs["obj"]]),
+                                         xq(obs["stop"]), obs["iters"], obs["epochs"]))
+            dist["iters"][obs["iters"]] = dist["iters"].get(obs["iters"], 0) + 1
+            dist["epochs_total"] += obs["epochs"]
+        dist["sparse"] += sp; dist["warm"] += w_init is not None; dist["fixpoint"] += cfg["fixpoint"]
+        dist["intercept"] += cfg["fit_intercept"]; dist["n_ne_p"] += n != M.p
+        label = (f"bcd#{k} n_samples={n} cfg={cfg} sparse={sp} w_init={w_init} Xw_init={Xw_init} T={M.T} a={M.a} lip={M.lip} "
+                 f"alpha={M.alpha} B={M.B} pos={M.positive} thr={M.thr} -> {obs}")
+        cases.append((label, expr, f"chk_bcd {b(has_buf)}", o))
+    return cases, dist
+
+
+BCD_IMPORTS = ["Skel.AndersonCD", "Skel.MockACD", "Skel.Generic", "Skel.GroupBCD", "Skel.CorrSolvers"]
+
 SOLVER_TARGETS = ["Skel/CorrSolvers.vo"]
-SOLVER_SOURCES = ["skglm/solvers/gram_cd.py"]
+SOLVER_SOURCES = ["skglm/solvers/gram_cd.py", "skglm/solvers/group_bcd.py"]
 
 
 def solver_corr(tier, rng, tag):
@@ -122,9 +209,14 @@ def solver_corr(tier, rng, tag):
     n = 40 if tier == "quick" else 400
     cases, dist = make_gram_cases(rng, n)
     r = tvlib.run_cases(cases, GRAM_IMPORTS, tag + "g", shard=10, jobs=16)
-    return dict(cases=len(cases), bad=r["bad"], errors=r["errors"], distribution=dict(gramcd_end_to_end=dist),
-                distinct_nontrivial=sum(1 for c in cases if "'obj': []" not in c[0] and "'err': True" not in c[0]),
-                samples=[dict(gramcd=cases[0][0][:500])])
+    nb = 300 if tier == "quick" else 2500
+    bc, bdist = make_bcd_cases(rng, nb)
+    rb = tvlib.run_cases(bc, BCD_IMPORTS, tag + "b", shard=12, jobs=16)
+    allc = cases + bc
+    return dict(cases=len(allc), bad=r["bad"] + rb["bad"], errors=r["errors"] + rb["errors"],
+                distribution=dict(gramcd_end_to_end=dist, groupbcd_mock_traces=bdist),
+                distinct_nontrivial=sum(1 for c in allc if "'obj': []" not in c[0] and "'err': True" not in c[0]),
+                samples=[dict(gramcd=cases[0][0][:500]), dict(groupbcd=bc[0][0][:500])])
 
 
 def merge_corr(a, b_):
@@ -137,6 +229,17 @@ def merge_corr(a, b_):
     out["samples"] = list(a.get("samples", [])) + list(b_.get("samples", []))
     return out
 
+
+if __name__ == "__main__" and len(__import__("sys").argv) > 3 and __import__("sys").argv[3] == "bcd":
+    import sys, tvlib
+    rng = random.Random(int(sys.argv[1]))
+    cases, dist = make_bcd_cases(rng, int(sys.argv[2]))
+    r = tvlib.run_cases(cases, BCD_IMPORTS, "bcd", shard=12, jobs=16)
+    print(dist)
+    print({k: v for k, v in r.items() if k != "bad"}, len(r["bad"]))
+    for x in r["bad"][:4]:
+        print("BAD", x[:1200])
+    sys.exit(0)
 
 if __name__ == "__main__":
     import sys, tvlib
